@@ -209,3 +209,79 @@ pub fn small_geometry(prop: &'static str, max_len: u64, max_width: u64) -> Phase
         wall_cap_s: 0,
     }
 }
+
+/// Every pair of neighbouring modules of every fixed-pattern track flipped, and every whole track
+/// inverted / stuck dark / stuck light, for every size: deviations a single-module sweep cannot see.
+pub fn c08_track_faults(seed: u64) -> Phase {
+    // enumerate lazily: index -> (size, track, variant); variants: 3 whole-track ops + (len-1) neighbour pairs
+    let mut table: Vec<(usize, usize, u64)> = Vec::new(); // (size, track index, first global index)
+    let mut total = 0u64;
+    for s in 0..N_SIZES {
+        let tracks = crate::catalogue::fixed_tracks(&SIZES[s]);
+        for (ti, t) in tracks.iter().enumerate() {
+            table.push((s, ti, total));
+            total += 3 + (t.len() as u64 - 1);
+        }
+    }
+    let make = move |_ctx: &Ctx, i: u64| -> Trace {
+        let k = match table.binary_search_by(|e| e.2.cmp(&i)) {
+            Ok(k) => k,
+            Err(k) => k - 1,
+        };
+        let (s, ti, first) = table[k];
+        let v = i - first;
+        let tracks = crate::catalogue::fixed_tracks(&SIZES[s]);
+        let t = &tracks[ti];
+        let mut faults = Vec::new();
+        match v {
+            0 => faults.extend(t.iter().map(|px| Fault::new("fix_track", Op::PxFlip { idx: *px }))),
+            1 => faults.extend(t.iter().map(|px| Fault::new("fix_track", Op::PxSet { idx: *px, val: true }))),
+            2 => faults.extend(t.iter().map(|px| Fault::new("fix_track", Op::PxSet { idx: *px, val: false }))),
+            _ => {
+                let a = (v - 3) as usize;
+                faults.push(Fault::new("fix_pair", Op::PxFlip { idx: t[a] }));
+                faults.push(Fault::new("fix_pair", Op::PxFlip { idx: t[a + 1] }));
+            }
+        }
+        Trace { prop: "C08".into(), producer: Producer::Raw { size: s, data: seeded_data(seed, s, v % 3) }, faults }
+    };
+    Phase {
+        source: Source::Sweep { name: "sweep_fixed_tracks_and_neighbour_pairs".into(), prop: "C08".into(), make: Box::new(make) },
+        runs: total,
+        wall_cap_s: 0,
+    }
+}
+
+/// 10x10: every error pattern of weight 3 = t+1 (56 position triples x 255^3 values): the complete
+/// just-beyond-the-radius fault space of that size (the decoder is linear, so one data vector suffices).
+pub fn c09_sq10_weight3(seed: u64) -> Phase {
+    let n = SIZES[0].n_total() as u32; // 8
+    let mut triples: Vec<(u32, u32, u32)> = Vec::new();
+    for a in 0..n {
+        for b in a + 1..n {
+            for c in b + 1..n {
+                triples.push((a, b, c));
+            }
+        }
+    }
+    const V: u64 = 255 * 255 * 255;
+    let total = triples.len() as u64 * V;
+    let make = move |_ctx: &Ctx, i: u64| -> Trace {
+        let (a, b, c) = triples[(i / V) as usize];
+        let r = i % V;
+        Trace {
+            prop: "C09".into(),
+            producer: Producer::Raw { size: 0, data: seeded_data(seed, 0, 0) },
+            faults: vec![
+                Fault::new("cw_pair", Op::CwXor { pos: a, mask: (r / (255 * 255) + 1) as u8 }),
+                Fault::new("cw_pair", Op::CwXor { pos: b, mask: ((r / 255) % 255 + 1) as u8 }),
+                Fault::new("cw_pair", Op::CwXor { pos: c, mask: (r % 255 + 1) as u8 }),
+            ],
+        }
+    };
+    Phase {
+        source: Source::Sweep { name: "sweep_sq10_all_weight3".into(), prop: "C09".into(), make: Box::new(make) },
+        runs: total,
+        wall_cap_s: 0,
+    }
+}
